@@ -169,7 +169,9 @@ func registerStubs(m map[string]Intrinsic) {
 	m["(*sync.Pool).Get"] = func(e *Exec, st *State, ci *CallInfo) Outcome {
 		p := ci.Args[0].(*Ptr)
 		k := "pool:" + p.key()
-		if v, ok := st.extra[k]; ok {
+		// while a thread is recorded alone, an object that was in the pool beforehand must not be handed to every
+		// thread (a real pool gives it to one of them): the thread gets a new object instead
+		if v, ok := st.extra[k]; ok && st.rec == nil {
 			items := v.(*TupleV).E
 			if len(items) > 0 {
 				st.extra[k] = &TupleV{E: append([]Value{}, items[:len(items)-1]...)}
